@@ -228,18 +228,28 @@ def gen_clip(ctx):
     rng = ctx.rng
     out = []
     tries = 0
-    want = 60 if ctx.quick() else 1500
+    want = 240 if ctx.quick() else 3000
+    kinds = {"parallel": 0, "empty": 0, "full": 0, "proper": 0}
     while len(out) < want and tries < 40 * want:
         tries += 1
-        d1, d2 = rng.randint(1, 4), rng.randint(1, 5)
-        n1 = [[Fraction(rng.randint(-8, 8), 2) for _ in range(d1 + 1)] for _ in range(2)]
-        n2 = [[Fraction(rng.randint(-8, 8), 2) for _ in range(d2 + 1)] for _ in range(2)]
+        d1, d2 = rng.randint(1, 5), rng.randint(1, 6)
+        if rng.random() < 0.5:
+            den, rad = 2, 8        # coarse lattice: ties, parallel chords, end points exactly on the fat lines
+        else:
+            den, rad = 8, 64
+        n1 = [[Fraction(rng.randint(-rad, rad), den) for _ in range(d1 + 1)] for _ in range(2)]
+        n2 = [[Fraction(rng.randint(-rad, rad), den) for _ in range(d2 + 1)] for _ in range(2)]
         if (n1[0][0], n1[1][0]) == (n1[0][-1], n1[1][-1]):
             continue
         ref = clip_reference(n1, n2)
-        if ref == "parallel" and rng.random() < 0.8:
+        kind = "parallel" if ref == "parallel" else "empty" if ref[0] > ref[1] else "full" if ref == (0, 1) else "proper"
+        if kind == "parallel" and kinds["parallel"] >= want // 8:
             continue
-        out.append({"n1": n1, "n2": n2, "ref": ref})
+        if kind in ("empty", "full") and kinds[kind] >= want // 5:
+            continue
+        kinds[kind] += 1
+        out.append({"n1": n1, "n2": n2, "ref": ref, "kind": kind})
+    ctx.clip_kinds = kinds
     return out
 
 
@@ -317,8 +327,23 @@ def run(ctx):
     correspond(ctx, "linearization_error", ln, [("hazmat.linearization_error", lambda c: [enc_arr(c["rows"])], whole)],
                lambda c, obs: None if obs[0][0] in ("exc", "malformed") else ["(%s, %s, %s)" % (coq_mat(c["rows"]), coq_q(obs[0][1]), coq_q(Fraction(1, 2 ** 45)))],
                HEADER, "chk_lin_error", judge=judge_lin, configs=("pure",), nontrivial=lambda c: c["n"] >= 2)
+    # clip_range: the model (regenerated per-chord update inside hand-written loops) against the implementation; NotImplementedError <-> VErr
+    cl = gen_clip(ctx)
+
+    def coq_clip(c, obs):
+        if obs[0][0] == "exc":
+            o = '(VErr "%s")' % obs[0][1]
+        elif obs[0][0] == "malformed":
+            return None
+        else:
+            o = coq_val(obs[0][1])
+        return ["(clip_val %s %s %s %s, %s, %s)" % (coq_list(c["n1"][0]), coq_list(c["n1"][1]), coq_list(c["n2"][0]), coq_list(c["n2"][1]),
+                                                   o, coq_q(Fraction(1, 2 ** 40)))]
+    correspond(ctx, "clip_range", cl, [("hazmat.clip_range", lambda c: [enc_arr(c["n1"]), enc_arr(c["n2"])], whole)],
+               coq_clip, HEADER, "chk_val", judge=judge_clip, configs=("pure",), nontrivial=lambda c: c["ref"] != "parallel")
+    ctx.corr["clip_range"]["distribution(kind of exact answer)"] = dict(ctx.clip_kinds)
     from framework import sweep
-    sweep(ctx, "clip_range_exact", gen_clip(ctx), [("hazmat.clip_range", lambda c: [enc_arr(c["n1"]), enc_arr(c["n2"])])], judge_clip, configs=("pure",))
+    sweep(ctx, "clip_range_exact", cl, [("hazmat.clip_range", lambda c: [enc_arr(c["n1"]), enc_arr(c["n2"])])], judge_clip, configs=("pure",))
     # the compiled twins of segment_intersection / parallel_lines_parameters are only reachable through the
     # line-line case of all_intersections
     from checks import isect_common as ic
@@ -328,5 +353,5 @@ def run(ctx):
                   "of the stated finite domains, the separating-axis theorem is for all inputs; Fortran twins are tied by correspondence",
                   search=search,
                   unproved=["hull correctness for arbitrary point sets (proved on the finite lattice domains only)",
-                            "clipping range: exact reference sweep (all chords of the distance polygon against the fat line), not a theorem; the compiled clip_range is not reachable from Python",
+                            "clipping range: the theorem is about exact data and the model whose loops are hand-written (per-chord update and implicit line regenerated), tied by correspondence and an exact reference sweep; the compiled clip_range is not reachable from Python",
                             "'err on the safe side on general (rounded) data' is not proved in a rounded model"])
